@@ -26,6 +26,7 @@ def run(cx, chk):
     chk.rule("C20.R2", "room_left returns max_cost.load() - (used + cost)")
     chk.rule("C20.R3", "update*/remove* report exactly whether the key was tracked (and its recorded cost)")
     chk.rule("C20.R5", "fill_sample: unchanged when already long enough; otherwise only pushes (key, cost) pairs read from key_costs, re-testing len >= samples after every push")
+    chk.rule("C20.R7", "update_max_cost installs the given budget on every path (room_left is computed from it, also when it is below the recorded sum); nothing else writes max_cost")
     chk.rule("C20.R6", "clear empties the tracker unconditionally: every path clears key_costs and sets used to 0 (costs are signed, so `used == 0` does not mean nothing is tracked)")
     chk.rule("C20.R4", "increment/update/remove delegate to the *_hashed_key twin with hash_key(k)")
     for cfg, F in cx.cfgs():
@@ -55,6 +56,41 @@ def run(cx, chk):
         siblings(cx, chk, cfg, F)
         fill_sample(cx, chk, cfg, F)
         clear_total(cx, chk, cfg, F)
+        budget(cx, chk, cfg, F)
+
+
+def budget(cx, chk, cfg, F):
+    f = F.find(ADT + "::update_max_cost")
+    ok = True
+    n = 0
+    for p in cx.paths(cfg, f["path"]):
+        n += 1
+        st = [e for e in p.events if e["ev"] == "call" and (e["q"] or "").split("::")[-1] in ("store", "swap") and e["args"]
+              and isinstance(e["args"][0], tuple) and e["args"][0][0] == "ref" and self_field(e["args"][0][1], "max_cost")]
+        st += [e for e in p.events if e["ev"] == "store" and self_field(e["loc"], "max_cost")]
+        vals = [(e["args"][1] if e["ev"] == "call" else e["val"]) for e in st]
+        if len(st) != 1 or vals[0] != ("param", 2, False):
+            ok = False
+            chk.violation("C20.R7", "update_max_cost|path", "a path of SampledLFU::update_max_cost %s: the tracker keeps answering room_left with a stale budget" % (
+                "does not store the new max cost" if not st else "stores %s instead of the argument" % fmt_val(vals[0])[:50]), f["span"]["file"], f["span"]["lo"], f["q"], None, cfg)
+            break
+    if ok:
+        chk.ob("C20.R7", cfg + ":update_max_cost", "max_cost := argument on all %d paths" % n)
+    # all writers of max_cost
+    for b in F.doc["bodies"]:
+        fn = F.fns[b["path"]]
+        for blk in b["blocks"]:
+            t = blk["t"]
+            if t["k"] == "call" and (t["f"].get("q") or "").startswith("core::sync::atomic::Atomic") and (t["f"].get("q") or "").split("::")[-1] in ("store", "swap", "fetch_add", "fetch_sub", "compare_exchange"):
+                a0 = t["args"][0] if t["args"] else {}
+                nm = None
+                # receiver provenance: &self.max_cost
+                for bl2 in b["blocks"]:
+                    for s_ in bl2["s"]:
+                        if s_["k"] == "assign" and a0.get("p") and s_["p"]["l"] == a0["p"]["l"] and s_["r"]["k"] == "ref":
+                            nm = [e["n"] for e in s_["r"]["p"]["p"] if isinstance(e, dict) and "n" in e]
+                if nm and nm[-1] == "max_cost" and not fn["q"].endswith("::update_max_cost"):
+                    chk.violation("C20.R7", "writer|" + fn["q"], "%s writes max_cost" % fn["q"], fn["span"]["file"], t["ln"], fn["q"], None, cfg)
 
 
 def clear_total(cx, chk, cfg, F):
